@@ -3,6 +3,7 @@ import OjgVerif.JPMut.LemmasDescent
 import OjgVerif.JPMut.LemmasDescentRem
 import OjgVerif.JPMut.LemmasDescentOne
 import OjgVerif.JPMut.LemmasDescentOneSet
+import OjgVerif.JPMut.LemmasDescentDel
 /-! # C13, continued: Modify through a recursive descent
 
 Round 3. The exactness theorems of Props/C13.lean / C13b.lean exclude every path with a descent. Here: paths with ONE
@@ -38,6 +39,25 @@ theorem modify_descent (dev : Dev) (hsib : dev.descentSiblings = false) (m : Mod
 /-- frame: every location that is not at, above or below a selected location holds what it held -/
 theorem modify_descent_frame (m : Modifier) (x : List Frag) (d : JV) : Frame (locsG σ x d) d (modifySpecG σ x m d) :=
   fun q hq => updAll_frame m.eff q (locsG σ x d) d hq
+
+/-- hit, for the nested selections a descent produces: every OUTERMOST selected location (no selected location above it) that exists
+holds the modifier's result on its subtree as edited inside; for a modifier that returns a constant `v`: it holds `v`
+("Get at each selected location returns the new value" is demanded of the outermost ones, Spec.lean) -/
+theorem modify_descent_hit (m : Modifier) (x : List Frag) (d c : JV) (p : Path) (hp : p ∈ locsG σ x d)
+    (hout : ∀ p' ∈ locsG σ x d, p'.isPrefixOf p = true → p' = p) (hv : valAt p d = some c) :
+    ∃ c', valAt p (modifySpecG σ x m d) = some (m.eff c') :=
+  updAll_hit_outer m.eff p (locsG σ x d) d c hp hout hv
+
+theorem modify_descent_hit_const (m : Modifier) (v : JV) (hm : ∀ c, m c = (v, true)) (x : List Frag) (d c : JV) (p : Path)
+    (hp : p ∈ locsG σ x d) (hout : ∀ p' ∈ locsG σ x d, p'.isPrefixOf p = true → p' = p) (hv : valAt p d = some c) :
+    valAt p (modifySpecG σ x m d) = some v := by
+  obtain ⟨c', h⟩ := modify_descent_hit (σ := σ) m x d c p hp hout hv
+  rw [h]
+  simp [Modifier.eff, hm]
+
+/-- `Modify $..a` with the constant 0 on `{"a":{"a":1}}`: both `$.a.a` and `$.a` are selected; the outermost one holds 0 -/
+example : modifyM false Dev.current false (fun _ => (.int 0, true)) [.descent, .child kA] (.obj [(kA, .obj [(kA, .int 1)])]) =
+    .ok (.obj [(kA, .int 0)]) := by rfl
 
 /-- the descent work-list alone: `descGo` with the rest of the path = the simultaneous edit at everything `..rest` selects -/
 theorem descent_worklist (dev : Dev) (m : Modifier) (hm : ∀ c, WF c → WF (m.eff c)) (rest : List Frag) (hne : rest ≠ [])
@@ -141,6 +161,14 @@ example : removeM false Dev.current false [.descent, .child kB, .child kA]
       (.obj [(kB, .obj [(kA, .int 1), (kB, .obj [(kA, .int 2), ([99], .int 3)])])]) =
     .ok (.obj [(kB, .obj [(kB, .obj [([99], .int 3)])])]) := by rfl
 
+/-- the hypotheses of `remove_descent_spec_current` are satisfiable: `$..b.a` = `[] ++ [..] ++ [b] ++ [a]` -/
+example : isDescentF (Frag.child kA) = false ∧ isFilterF (Frag.child kA) = false ∧ NoDescent ([] : List Frag) ∧ ([Frag.child kB] ≠ []) ∧
+    NoDescent [Frag.child kB] ∧ NoFilter [Frag.child kB] ∧ NoUnion ([] : List Frag) ∧ NoUnion ([Frag.child kB] ++ [Frag.child kA]) := by
+  refine ⟨rfl, rfl, (fun _ h => nomatch h), (by simp), ?_, ?_, (fun _ h => nomatch h), ?_⟩
+  · intro f hf; simp at hf; subst hf; rfl
+  · intro f hf; simp at hf; subst hf; rfl
+  · intro f hf ms h; simp at hf; rcases hf with rfl | rfl <;> cases h
+
 /-- and that is the specification's tree -/
 example : removeSpecG inclIdx [.descent, .child kB, .child kA] (.obj [(kB, .obj [(kA, .int 1), (kB, .obj [(kA, .int 2), ([99], .int 3)])])]) =
     .obj [(kB, .obj [(kB, .obj [([99], .int 3)])])] := by rfl
@@ -234,6 +262,27 @@ theorem one_set_descent_current (a : SetArg) (pre rest : List Frag) (hp : NoDesc
     (h : setM false Dev.current true a (pre ++ .descent :: rest) d = .ok d') :
     OneOKG inclIdx (pre ++ .descent :: rest) d d' a.op :=
   one_set_descent Dev.current rfl rfl a pre rest hp hne hnd d d' hw (goodPreS_noUnion rest hnd hu2 pre hp hu1 d) h
+
+/-- DEL THROUGH A DESCENT AT THE HEAD OF THE PATH (`$..rest`; all matches, simple data; `rest` non-empty, free of filters and
+descents and good on every value): when no error is reported the data is `delSpecG σ x d` — the object members `JPath.eval`
+(descent clause included) selects gone, the selected array elements null. (`Expr.set` runs on the path as it is, so the
+descent at the head is the whole `pre = []` case; Del creates nothing, so exact equality holds — for Set it would hold only
+up to member order.) -/
+theorem del_descent (dev : Dev) (rest : List Frag) (hne : rest ≠ []) (hnd : NoDescent rest) (hnf : NoFilter rest)
+    (hgm : ∀ c, GoodPath σ dev rest c) (hgs : ∀ c, GoodPathS σ dev rest c) (d d' : JV) (hw : WF d)
+    (h : setM false dev false .del (.descent :: rest) d = .ok d') : d' = delSpecG σ (.descent :: rest) d :=
+  delM_descent dev rest hne hnd hnf hgm hgs d d' hw h
+
+/-- the code as it is, a rest without unions: every data tree with unique member names -/
+theorem del_descent_current (rest : List Frag) (hne : rest ≠ []) (hnd : NoDescent rest) (hnf : NoFilter rest) (hu : NoUnion rest)
+    (d d' : JV) (hw : WF d) (h : setM false Dev.current false .del (.descent :: rest) d = .ok d') :
+    d' = delSpecG inclIdx (.descent :: rest) d :=
+  del_descent Dev.current rest hne hnd hnf (fun c => goodPath_noUnion rest hnd hu c) (fun c => goodPathS_noUnion rest hnd hu c) d d' hw h
+
+/-- `Del $..a` on `{"a":1,"b":{"a":2,"c":[{"a":3}]}}` -/
+example : setM false Dev.current false .del [.descent, .child kA]
+      (.obj [(kA, .int 1), (kB, .obj [(kA, .int 2), ([99], .arr [.obj [(kA, .int 3)]])])]) =
+    .ok (.obj [(kB, .obj [([99], .arr [.obj []])])]) := by rfl
 
 /-- `SetOne $..a` with 9 on `{"b":{"a":2},"a":1}`: the member's subtree first — `$.b.a` is written -/
 example : setM false Dev.current true (.val (.int 9)) [.descent, .child kA] (.obj [(kB, .obj [(kA, .int 2)]), (kA, .int 1)]) =
